@@ -24,7 +24,7 @@ def nearBucket (a b : List Int) : Bool :=
 
 structure St where
   c : Int                              -- cell size = tolerance (positive)
-  verts : List (Nat × Pt)              -- live vertices (key, coordinates); keys are never reused
+  verts : List (Nat × Pt)              -- live vertices (key, coordinates); keys are never reused (`rebuild` renumbers all of them at once)
   idx : Option (List (Nat × Pt))       -- grid entries (key, coordinates when inserted); `none` = no grid
   deriving Repr
 
@@ -53,7 +53,14 @@ inductive Op where
   | editRemove (k : Nat)                  -- Edit-API flip_k1_remove: vertex set changes, grid DROPPED
   | dropIndex                             -- as_triangulation_mut / heuristic rebuild / deserialisation
   | clone                                 -- clone: same state
+  | rebuild (b : Nat)                     -- initial-simplex bootstrap: the Tds is REPLACED, every live
+                                          -- vertex gets a fresh key (b, b+1, …); the grid is re-keyed
+                                          -- from the rebuilt structure (fix F22)
   deriving Repr
+
+/-- fresh keys `b, b+1, …` for the vertices in storage order -/
+def rekey (b : Nat) (vs : List (Nat × Pt)) : List (Nat × Pt) :=
+  vs.zipIdx.map (fun (v, i) => (b + i, v.2))
 
 def step (s : St) : Op → St
   | .seed => match s.idx with
@@ -68,6 +75,7 @@ def step (s : St) : Op → St
   | .editRemove k => { s with verts := s.verts.filter (·.1 != k), idx := none }
   | .dropIndex => { s with idx := none }
   | .clone => s
+  | .rebuild b => let vs := rekey b s.verts; { s with verts := vs, idx := s.idx.map (fun _ => vs) }
 
 def run (s : St) (ops : List Op) : St := ops.foldl step s
 
